@@ -25,6 +25,9 @@ pub struct Case {
     pub wal: bool,
     pub timer: bool,
     pub schedule: Vec<u16>,
+    /// the remaining configuration knobs: flush_parallelism {4,1,2,8} x batch_timeout {250,50,1 ms} x batch_size_bytes {8 MiB, 1 KiB}
+    #[serde(default)]
+    pub knobs: u8,
 }
 
 pub fn storage_config() -> StorageConfig {
@@ -50,6 +53,9 @@ pub fn exec(case: &Case) -> Outcome {
             flush_row_count: 1 + (case.flush_rows % 8) as usize,
             flush_size_bytes: 100 * 1024 * 1024,
             max_buffer_size_bytes: if case.tiny_buffer { 3000 } else { 512 * 1024 * 1024 },
+            flush_parallelism: [4usize, 1, 2, 8][case.knobs as usize % 4],
+            batch_timeout: std::time::Duration::from_millis([250u64, 50, 1][(case.knobs as usize / 4) % 3]),
+            batch_size_bytes: [8usize << 20, 1024][(case.knobs as usize / 12) % 2],
             wal: WalConfig { wal_dir: wal_dir.path().to_path_buf(), max_segment_size: 4096, sync_mode: WalSyncMode::EveryWrite, enabled: case.wal },
             ..Default::default()
         };
@@ -262,7 +268,7 @@ fn strategy(t: Tier) -> BoxedStrategy<Case> {
         any::<bool>(),
         prop::collection::vec(any::<u16>(), 0..150),
     )
-        .prop_map(|(base, writers, flush_rows, tiny_buffer, backend, wal, timer, schedule)| Case { base, writers, flush_rows, tiny_buffer, backend, wal, timer, schedule })
+        .prop_map(|(base, writers, flush_rows, tiny_buffer, backend, wal, timer, schedule)| Case { base, writers, flush_rows, tiny_buffer, backend, wal, timer, schedule, knobs: 0 })
         .boxed()
 }
 
@@ -270,8 +276,8 @@ pub fn def() -> PropDef {
     PropDef {
         id: "C06",
         level: "exploration",
-        rule: "1-4 (thorough 5) concurrent writers x 1-6 (10) batches of 1-6 rows; 6 schema variants (Int64 / Timestamp(ns) / Timestamp(ns,UTC) timestamps, 0-3 nullable labels, f64 and/or i64 values incl. +-0, NaN, +-inf, limits, empty / non-ASCII strings), unique row ids; base timestamps of either sign up to 2^62, <=72 h span; flush_row_count 1-8, sometimes a tiny buffer (back-pressure), optional WAL, optional flush timer, final shutdown flush; interleaving = generated schedule over every chunk upload and catalog request; LocalMetadataClient (gated per call) or ObjectStoreMetadataClient. Non-trivial = at least 2 flushes and (schema alternation or >= 2 writers).",
+        rule: "1-4 (thorough 5) concurrent writers x 1-6 (10) batches of 1-6 rows; 6 schema variants (Int64 / Timestamp(ns) / Timestamp(ns,UTC) timestamps, 0-3 nullable labels, f64 and/or i64 values incl. +-0, NaN, +-inf, limits, empty / non-ASCII strings), unique row ids; base timestamps of either sign up to 2^62, <=72 h span; flush_row_count 1-8, sometimes a tiny buffer (back-pressure), optional WAL, optional flush timer, flush_parallelism {4,1,2,8} x batch_timeout {250,50,1 ms} x batch_size_bytes {8 MiB,1 KiB}, final shutdown flush; interleaving = generated schedule over every chunk upload and catalog request, with 150-1200 ms of virtual time passing at generated steps while requests are parked (a slow store); LocalMetadataClient (gated per call) or ObjectStoreMetadataClient. Non-trivial = at least 2 flushes and (schema alternation or >= 2 writers).",
         assumptions: &["no crashes, storage errors or shard splits (that is C01 / C15)", "broadcast capacity (1024) exceeds the number of flushes"],
-        subs: || vec![Box::new(Sub::<Case> { name: "ingest", cases: |t| t.scale(20_000, 6), strategy, exec })],
+        subs: || vec![Box::new(Sub::<Case> { name: "ingest", cases: |t| t.scale(20_000, 6), strategy: |t| (strategy(t), prop_oneof![1 => Just(0u8), 2 => 0u8..24]).prop_map(|(mut c, k)| { c.knobs = k; c }).boxed(), exec })],
     }
 }
